@@ -46,6 +46,8 @@ where
         // `R mod modulus` where `R = 2^BITS`.
         // Represents 1 in Montgomery form.
         let one = Uint::MAX.rem(modulus.as_nz_ref()).wrapping_add(&Uint::ONE);
+        // For the modulus 1 this is `1`, not the reduced `R mod 1 = 0`.
+        let one = Uint::select(&one, &Uint::ZERO, Uint::eq(&one, modulus.as_ref()));
 
         // `R^2 mod modulus`, used to convert integers to Montgomery form.
         let r2 = one
@@ -88,6 +90,8 @@ impl<const LIMBS: usize> MontyParams<LIMBS> {
         let one = Uint::MAX
             .rem_vartime(modulus.as_nz_ref())
             .wrapping_add(&Uint::ONE);
+        // For the modulus 1 this is `1`, not the reduced `R mod 1 = 0`.
+        let one = Uint::select(&one, &Uint::ZERO, Uint::eq(&one, modulus.as_ref()));
 
         // `R^2 mod modulus`, used to convert integers to Montgomery form.
         let r2 = Uint::rem_wide_vartime(one.square_wide(), modulus.as_nz_ref());
